@@ -60,6 +60,9 @@ Init == /\ ph = 0
            \/ c \in [d : {"g2u"}, t : Trees(GCanon)]
            \/ c \in [d : {"width"}, g : Widths, wrap : Wraps]
            \/ c \in [d : {"reg"}, g : RegKinds, wrap : Wraps]
+           \* a conversion is a function of the value: an inner container reachable twice (shared, no cycle) converts
+           \* like the tree in which it is written out twice
+           \/ c \in [d : {"shared"}, dir : {"u2g", "g2u"}, outer : {"seq", "map", "mapseq", "seqmap", "deep"}, inner : {"seq", "map"}]
 Judge == ph = 0 /\ ph' = 1 /\ UNCHANGED c
 Next == Judge
 Spec == Init /\ [][Next]_vars
@@ -71,6 +74,7 @@ Inverse == ph = 1 => CASE c.d = "u2g" -> ToO(ToI(c.t)) = c.t
 Export == ph = 1 =>
   CSVWrite("%1$s", <<ToJson(CASE c.d = "u2g" -> [d |-> "u2g", t |-> c.t, img |-> ToI(c.t)]
                               [] c.d = "g2u" -> [d |-> "g2u", t |-> c.t, img |-> ToO(c.t)]
+                              [] c.d = "shared" -> [d |-> "shared", dir |-> c.dir, outer |-> c.outer, inner |-> c.inner]
                               [] c.d = "reg" -> [d |-> "reg", g |-> c.g, wrap |-> c.wrap, obj |-> RegToObject(c.g), back |-> RegBack(c.g)]
                               [] OTHER -> [d |-> "width", g |-> c.g, wrap |-> c.wrap,
                                            obj |-> WidthToObject(c.g), alt |-> WidthToObjectAlt(c.g)])>>, IOEnv.OUT)
